@@ -68,7 +68,7 @@ class DataGen(object):
         nd = r.choice([1, 1, 2, 3])
         dimmed = r.random() < 0.65
         if dimmed:
-            bounds = [r.choice([0, 1, 2, 3, 5, 10, 12]) for _ in range(nd)]
+            bounds = [r.choice([0, 1, 2, 3, 5, 10, 12] + ([11, 100, 255, 256, 1000] if nd == 1 else [11, 20] if nd == 2 else [])) for _ in range(nd)]
             spell = [("&H%X" % b if r.random() < 0.25 else str(b)) for b in bounds]
             self.dims_line.append((name, bounds, spell))
         else:
